@@ -104,6 +104,7 @@ func (c05) Cases(tier string, seed int64, kf *KnownFindings) []Case {
 	add(Case{Kind: "skipref", Seed: Mix(seed, 5), Count: 30})
 	add(Case{Kind: "dupdef", Seed: Mix(seed, 6), Count: 12})
 	add(Case{Kind: "twonames", Seed: Mix(seed, 8), Count: 8})
+	add(Case{Kind: "dupnames", Seed: Mix(seed, 9), Count: 8})
 	n, per := 8, 100
 	if tier == "thorough" {
 		n, per = 128, 1500
@@ -425,7 +426,7 @@ func (c05) Run(c Case, env *Env) Result {
 	tWide := reflect.TypeOf(F12{})
 	tLong := reflect.TypeOf(FLong{})
 	for j := lo; j < hi; j++ {
-		if c.Kind == "skipref" || c.Kind == "dupdef" || c.Kind == "twonames" {
+		if c.Kind == "skipref" || c.Kind == "dupdef" || c.Kind == "twonames" || c.Kind == "dupnames" {
 			c05special(c, j, env, &res)
 			continue
 		}
@@ -732,6 +733,28 @@ func c05special(c Case, j int, env *Env, res *Result) {
 		expect = &FRef{Owner: in, Editor: in, N: 7}
 		desc = fmt.Sprintf("fields=%v (unknown container field %s)", names, hspec.ShortString(unk))
 		feats = append(feats, "unknown-container-before-backref")
+	case "dupnames":
+		// a definition that lists one Go field TWICE (a shadowed Java field: the same name again, or the name in
+		// both spellings): which of the two values the field keeps is not specified, but every field listed
+		// AFTER them is bound as usual
+		var names []string
+		var vals []*hspec.Value
+		switch j % 4 {
+		case 0:
+			names, vals = []string{"a", "a", "s"}, []*hspec.Value{hspec.Int(1), hspec.Int(2), hspec.String("x")}
+		case 1:
+			names, vals = []string{"s", "S", "a"}, []*hspec.Value{hspec.String("p"), hspec.String("q"), hspec.Int(7)}
+		case 2:
+			names, vals = []string{"a", "A", "a", "gone", "s"}, []*hspec.Value{hspec.Int(1), hspec.Int(2), hspec.Int(3), hspec.Int(9), hspec.String("x")}
+		default:
+			names, vals = []string{"s", "a", "s", "a"}, []*hspec.Value{hspec.String("p"), hspec.Int(1), hspec.String("q"), hspec.Int(2)}
+		}
+		o := hspec.Object("test.Inner", names, vals...)
+		enc.Value(hspec.List("", o, hspec.String("tail")))
+		stream = enc.Out
+		expect = nil
+		desc = fmt.Sprintf("definition %v lists a Go field more than once", names)
+		feats = append(feats, "field-listed-twice")
 	case "twonames":
 		// two class NAMES that the receiver's type map sends to ONE Go struct, with different field lists
 		// (two versions of a class): each instance is built from the definition it names
@@ -806,6 +829,18 @@ func c05special(c Case, j int, env *Env, res *Result) {
 		viol("panic", pi.Msg)
 	case derr != nil:
 		viol("dec-error", derr.Error())
+	case c.Kind == "dupnames":
+		l, _ := out.([]interface{})
+		var in *zoo.Inner
+		if len(l) == 2 {
+			in, _ = l[0].(*zoo.Inner)
+		}
+		switch {
+		case in == nil || l[1] != "tail":
+			viol("mismatch", fmt.Sprintf("decoded as %T %.100v", out, out))
+		case in.A < 1 || in.A > 7 || (in.S != "x" && in.S != "p" && in.S != "q"):
+			viol("mismatch", fmt.Sprintf("a field listed after a repeated name was not bound: got %+v", *in))
+		}
 	default:
 		if d := zoo.Equiv(expect, out, zoo.EquivOpts{}); d != "" {
 			viol("mismatch", d)
